@@ -255,6 +255,60 @@ theorem C07_fact_overlap :
     Thanos.Facts.storesOverlapsClosedInterval = "b.meta.MinTime <= maxt && mint < b.meta.MaxTime"
     ∧ (Thanos.Facts.storesGetForConds.drop 2).take 2 = ["b.meta.MaxTime <= mint", "b.meta.MinTime > maxt"] := by decide
 
+/-! ### the label calls look at every overlapping block, whatever its resolution -/
+
+/-- the label calls do not read the resolution of a block: re-labelling the resolutions changes no answer -/
+theorem labelNames_ignore_resolution (blocks : List Block) (f : Block → Int) (r : Req) :
+    bucketLabelNames (blocks.map fun b => { b with res := f b }) r = bucketLabelNames blocks r := by
+  unfold bucketLabelNames
+  induction blocks with
+  | nil => rfl
+  | cons b bs ih =>
+    simp only [List.map_cons, List.filter_cons]
+    have h1 : blockOverlaps { b with res := f b } r.mint r.maxt = blockOverlaps b r.mint r.maxt := rfl
+    rw [h1]
+    split
+    · simp only [List.flatMap_cons, ih]
+      rfl
+    · exact ih
+
+theorem labelValues_ignore_resolution (blocks : List Block) (f : Block → Int) (r : Req) (l : Nat) :
+    bucketLabelValues (blocks.map fun b => { b with res := f b }) r l = bucketLabelValues blocks r l := by
+  unfold bucketLabelValues
+  split
+  · rfl
+  · induction blocks with
+    | nil => rfl
+    | cons b bs ih =>
+      simp only [List.map_cons, List.filter_cons]
+      have h1 : blockOverlaps { b with res := f b } r.mint r.maxt = blockOverlaps b r.mint r.maxt := rfl
+      rw [h1]
+      split
+      · simp only [List.flatMap_cons, ih]
+        rfl
+      · exact ih
+
+/-- … while Series reads the blocks `getFor` selects for the maximum resolution of the request — downsampled
+    blocks included, also when no raw block covers their range — and these are among the blocks the label calls
+    look at (`mem_selected`): that is why `C07_names_bucket` / `C07_values_bucket` hold for stores of all three
+    resolutions.  Regenerated fact: the block loops of both label calls skip a block only for the time range,
+    the block matchers of the hints and contradicted external labels — there is no resolution test. -/
+theorem C07_fact_label_block_filter :
+    Thanos.Facts.storesLabelNamesBlockFilter =
+      ["!b.overlapsClosedInterval(req.Start, req.End)",
+       "len(reqBlockMatchers) > 0 && !b.matchRelabelLabels(reqBlockMatchers)", "!ok"]
+    ∧ Thanos.Facts.storesLabelValuesBlockFilter =
+      ["!b.overlapsClosedInterval(req.Start, req.End)",
+       "len(reqBlockMatchers) > 0 && !b.matchRelabelLabels(reqBlockMatchers)", "!ok"] := by decide
+
+-- non-vacuity: an old range present only as a 5m block: Series at max resolution 5m serves its series, and the
+-- label calls list its names although no raw block is there
+def oldOnly5m : List Block :=
+  [⟨[(5, 9)], 0, 100, [⟨[(1, 8), (7, 6)], [⟨10, 20, 1⟩]⟩], 300000⟩, ⟨[(5, 9)], 100, 200, [⟨[(1, 7)], [⟨110, 120, 2⟩]⟩], 0⟩]
+example : (bucketSeries oldOnly5m ⟨0, 300, [⟨1, false, [7, 8]⟩], [], false, false, 300000⟩).map (·.1) =
+    [[(1, 8), (5, 9), (7, 6)], [(1, 7), (5, 9)]] := by decide
+example : canonNats (bucketLabelNames oldOnly5m ⟨0, 300, [⟨1, false, [7, 8]⟩], [], false, false, 300000⟩) = [1, 5, 7] := by decide
+
 /-! ### external labels replaced at run time: every call reads the current set -/
 
 /-- after `SetExtLset` each of the three calls answers as a store created with the new external labels would -/
